@@ -276,10 +276,23 @@ def options(ctx, P, views):
                 handled.add(x.comparators[0].value)
         for m in ("preempt", "interrupt_service"):
             cls, fn = view.method(m)
-            ok = False
-            for x in rules.walk(P, view, fn):
-                if isinstance(x, ast.Compare) and isinstance(x.ops[0], ast.Eq) and isinstance(x.comparators[0], ast.Constant) and x.comparators[0].value == "reroute":
-                    ok = True
+            # on paths: reroute(...) is called exactly under <option> == 'reroute' (whichever way the test is written or the arms are ordered)
+            wr = Walker(P, view, keep=lambda e: e.kind == "guard" or (e.kind == "call" and e.d["meth"] == "reroute"), track=lambda t, f: "reroute" in unparse(t), inline=rules.new_helper)
+            with_, without = 0, 0
+            ok = True
+            for st_ in wr.paths_of(cls, fn):
+                if st_.status == "raise":
+                    continue
+                called = any(e.kind == "call" for e in st_.events)
+                pc = rules.path_condition(st_.events, len(st_.events))
+                opt = [v for a, v in pc.items() if a[0] == "eq" and "'reroute'" in a[1:]]
+                if called:
+                    with_ += 1
+                    ok = ok and bool(opt) and opt[0] is True
+                else:
+                    without += 1
+                    ok = ok and bool(opt) and opt[0] is False
+            ok = ok and with_ > 0 and without > 0
             ob.ok("%s.%s:reroute-branch" % (view.name, m))
             if not ok:
                 ctx.violation(ob, "R12.options", "%s.%s" % (cls.name, m), "== 'reroute'", "reroute-not-dispatched", "the reroute option is validated but %s does not dispatch on it" % m, loc(fn))
